@@ -68,6 +68,8 @@ GlobalGraph::Edge GlobalGraph::link(Graph::NodeId nodeA, Graph::NodeId nodeB)
 {
   nodeMustExist_(nodeA, "first node to link");
   nodeMustExist_(nodeB, "second node to link");
+  if (nodeStructure_[nodeA].first.find(nodeB) != nodeStructure_[nodeA].first.end())
+    throw Exception("GlobalGraph::link : nodes already linked " + TextTools::toString(nodeA) + "->" + TextTools::toString(nodeB));
 
   // which ID is available?
   GlobalGraph::Edge edgeID = highestEdgeID_++;
@@ -88,6 +90,8 @@ void GlobalGraph::link(Graph::NodeId nodeA, Graph::NodeId nodeB, GlobalGraph::Ed
     throw Exception("GlobalGraph::link : already existing edgeId " + TextTools::toString(edgeID));
   nodeMustExist_(nodeA, "first node to link");
   nodeMustExist_(nodeB, "second node to link");
+  if (nodeStructure_[nodeA].first.find(nodeB) != nodeStructure_[nodeA].first.end())
+    throw Exception("GlobalGraph::link : nodes already linked " + TextTools::toString(nodeA) + "->" + TextTools::toString(nodeB));
 
   // writing the new relation to the structure
   linkInNodeStructure_(nodeA, nodeB, edgeID);
